@@ -14,7 +14,8 @@ ID = "C14"
 LEVEL = "model_checking"
 CHUNK = 1
 LIB = ("mc.vlib.graph",)
-RULE = ("cases = labelled digraphs with at least one cycle x reference kinds x {API, source}; each program is driven "
+RULE = ("cases = labelled digraphs with at least one cycle x reference kinds x {API, source} over a generic command, plus every built-in "
+        "data command x arity x preset x back-reference position x {self-loop, 2-cycle, 3-cycle} x 2 orders; each program is driven "
         "through run(), run() again and result of every command on fresh objects; non-trivial = distinct cyclic programs; "
         "acyclic graphs of the same sizes are the negative control (must not raise)")
 ASSUMPTIONS = ["recursion limit lowered to current depth+250 so runaway recursion is detected deterministically",
@@ -33,6 +34,8 @@ def _pairs(n):
 
 
 def cases(tier):
+    for c in _real_cases():
+        yield c
     # (how, n, lo, hi, naming, per-edge kinds up to this many edges, uniform kinds d/l/n up to this many edges (else "d" only))
     q = tier == "quick"
     for n in (1, 2, 3):
@@ -51,6 +54,108 @@ def cases(tier):
         for k in range(1, 7):
             for first in range(len(pairs)):
                 yield ("comb", 5, k, first, 0, 0, 0)
+
+
+REAL_LIBS = ("mpilot.libraries.eems.basic", "mpilot.libraries.eems.fuzzy", "mc.vlib.const")
+
+
+def _real_cases():
+    from ..ref import sig as SIG
+    from .. import numdrv as D
+
+    for cmd in SIG.DATA_COMMANDS:
+        for n in D.arities(cmd):
+            yield ("real", cmd, n)
+
+
+def _real(case):
+    """the BUILT-IN commands on a cycle: every data command x arity x parameter preset (incl. zero weights) x every input position holding
+    the back reference x {self-loop, 2-cycle through a well-typed partner command, 3-cycle}: run() must raise RecursiveModelStructure"""
+    import numpy
+    from mpilot.program import Program
+    from mpilot.exceptions import RecursiveModelStructure, MPilotError
+    from ..ref import sig as SIG
+    from .. import numdrv as D
+    from ..vlib import const as C
+
+    _, cmd, n = case
+    C.TABLE["nf"] = lambda: numpy.ma.MaskedArray([0.5, 2.0, -1.0, 0.0], mask=[False, False, False, True])
+    C.TABLE["fz"] = lambda: numpy.ma.MaskedArray([0.5, 1.0, -1.0, 0.0], mask=[False, True, False, False])
+    fin = SIG.input_fuzz(cmd) == "fz"
+    fout = cmd in SIG.FUZZY_PRODUCERS
+    # partner: consumes cmd's result, produces what cmd's inputs demand (so that the ONLY defect of the model is the cycle)
+    partner = {(True, True): ("FuzzyNot", {}), (True, False): ("CvtFromFuzzy", {"TrueThreshold": 1, "FalseThreshold": 0}),
+               (False, True): ("CvtToFuzzy", {"TrueThreshold": 1, "FalseThreshold": 0}), (False, False): ("Copy", {})}[(fout, fin)]
+    slots = SIG.result_slots(cmd)
+    viols, outcomes = [], {}
+    evals = 0
+    sample = None
+    old = sys.getrecursionlimit()
+    sys.setrecursionlimit(_limit())
+    try:
+        for params in D.presets_small(cmd, n):
+            for pos in range(n):
+                for shape in ("self", "two", "three"):
+                    if shape == "self" and SIG.input_fuzz(cmd) != "*" and fin != fout:
+                        continue  # a self-loop of this command is ill-typed as well (which error comes first is not stated)
+                    for order in (0, 1):
+                        p = Program(libraries=REAL_LIBS)
+                        lib = p.command_library
+                        back = {"self": "T", "two": "P1", "three": "P2"}[shape]
+                        ins = [back if i == pos else "X%d" % i for i in range(n)]
+                        args = dict(params)
+                        if len(slots) == 2:
+                            args[slots[0][0]], args[slots[1][0]] = ins[0], ins[1]
+                        elif slots[0][1]:
+                            args[slots[0][0]] = list(ins)
+                        else:
+                            args[slots[0][0]] = ins[0]
+                        cmds = [("T", lib[cmd], args)]
+                        if shape != "self":
+                            cmds.append(("P1", lib[partner[0]], dict(partner[1], InFieldName="T")))
+                        if shape == "three":
+                            # P2 passes P1's result on unchanged in kind
+                            ident = ("FuzzyNot", {}) if fin else ("Copy", {})
+                            cmds.append(("P2", lib[ident[0]], dict(ident[1], InFieldName="P1")))
+                        for i in range(n):
+                            if i != pos:
+                                cmds.append(("X%d" % i, lib["ConstFZ" if fin else "ConstNF"], {"Key": "fz" if fin else "nf"}))
+                        if order:
+                            cmds.reverse()
+                        for name, cls, a in cmds:
+                            p.add_command(cls, name, a)
+                        tag = {"command": cmd, "params": params, "back_reference_at": pos, "cycle": shape, "order": order, "source": p.to_string()}
+                        sample = tag
+                        for attempt in (1, 2):
+                            evals += 1
+                            try:
+                                with numpy.errstate(all="ignore"):
+                                    p.run()
+                                oc = "returned"
+                                viols.append(V("C14:real:run-returned:%s" % cmd, "run() #%d of a model with a %s cycle through input %d of %s %r returned" % (
+                                    attempt, shape, pos, cmd, params), **tag))
+                            except RecursiveModelStructure:
+                                oc = "RMS"
+                            except BaseException as exc:
+                                oc = type(exc).__name__
+                                if _is_recursion(exc):
+                                    viols.append(V("C14:real:stack-overflow:%s" % cmd, "run() #%d ran out of stack" % attempt, **tag))
+                                else:
+                                    viols.append(V("C14:real:wrong-error:%s:%s" % (cmd, type(exc).__name__), "run() #%d raised %r instead of RecursiveModelStructure" % (attempt, exc), **tag))
+                            outcomes["real:" + oc] = outcomes.get("real:" + oc, 0) + 1
+                        evals += 1
+                        try:
+                            with numpy.errstate(all="ignore"):
+                                r = p.commands["T"].result
+                            viols.append(V("C14:real:value-from-cycle:%s" % cmd, "result of %s on a %s cycle returned %r" % (cmd, shape, r), **tag))
+                        except MPilotError:
+                            pass
+                        except BaseException as exc:
+                            viols.append(V("C14:real:result-raw-exception:%s:%s" % (cmd, type(exc).__name__), "reading the result raised %r" % (exc,), **tag))
+    finally:
+        sys.setrecursionlimit(old)
+    return {"evals": evals, "nontrivial": evals, "judged": evals, "viols": viols[:30], "outcomes": outcomes, "sample": sample,
+            "extra": {"cyclic_programs": evals // 3}}
 
 
 def _limit():
@@ -152,6 +257,8 @@ def _one(n, edges, names, mode, cyclic):
 
 def run(case):
     case = tuple(case)
+    if case[0] == "real":
+        return _real(case)
     how, n = case[0], case[1]
     viols, evals, nontriv, ctrl = [], 0, 0, 0
     outcomes = {}
